@@ -24,6 +24,30 @@ def strategy(tier):
         dict_bias=6)
 
 
+def exhaustive(tier):
+    """unions over relaxed dicts (and undeclared containers) x sparse values that carry an undeclared key and leave
+    declared keys out: every alternative accepts-but-cannot-take such a value; whatever the union then does, the result
+    must not accept more than the union did"""
+    import itertools
+    m_int, m_str = {"t": "int"}, {"t": "str"}
+    user = {"t": "dict", "entries": [{"key": "id", "opt": False, "spec": m_int}, {"key": "name", "opt": False, "spec": m_str}], "relaxed": True}
+    user_first = dict(user, relaxed_at=0)
+    opt = {"t": "dict", "entries": [{"key": "id", "opt": True, "spec": m_int}], "relaxed": True}
+    strict = {"t": "dict", "entries": [{"key": "id", "opt": False, "spec": m_int}, {"key": "name", "opt": True, "spec": m_str}], "relaxed": False}
+    pools = [[user], [user, {"t": "none"}], [user, opt], [user_first, strict], [strict, user], [opt, {"t": "dict"}], [user, {"t": "list", "form": "untyped"}],
+             [{"t": "alias", "name": "User", "spec": user}], [{"t": "any", "alts": [user, strict]}, {"t": "none"}]]
+    vals = [{"id": 7, "role": "admin"}, {"role": "admin"}, {"id": 7}, {"name": "n", "zz": None}, {"id": 7, "name": "n", "zz": 1}, {},
+            {"id": 7, "name": "n"}, {"id": "7", "role": 1}, {"zz": {"id": 7}}]
+    for alts, v in itertools.product(pools, vals):
+        u = {"t": "any", "alts": alts}
+        probes = [v, dict(v, name="n"), dict(v, id=7, name="n"), dict(v, more=1), {k: x for k, x in v.items() if k != "id"}, {}, None]
+        for spec, val, pr in ((u, v, probes),
+                              ({"t": "dict", "entries": [{"key": "payload", "opt": False, "spec": u}], "relaxed": False},
+                               {"payload": v}, [{"payload": p} for p in probes]),
+                              ({"t": "list", "form": "typed", "elem": u}, [v], [[p] for p in probes] + [[v, v]])):
+            yield {"spec": spec, "value": val, "full": None, "kind": "sparse-into-union", "rng": [0.5, 0.0, 1.0], "share": False, "probes": pr}
+
+
 def _r(x):
     try:
         return repr(x)
